@@ -217,6 +217,17 @@ def _apply(scratch: Path, edits) -> bool:
                 s = p.read_text()
                 if e["transform"] == "unparse":
                     s2 = ast.unparse(ast.parse(s)) + "\n"
+                elif e["transform"] == "invert_if_else":
+                    tree = ast.parse(s)
+                    for n in ast.walk(tree):
+                        if isinstance(n, ast.If) and n.orelse and not (
+                                len(n.orelse) == 1 and isinstance(n.orelse[0], ast.If)):
+                            t = n.test
+                            n.test = t.operand if (isinstance(t, ast.UnaryOp)
+                                                   and isinstance(t.op, ast.Not)) \
+                                else ast.UnaryOp(op=ast.Not(), operand=t)
+                            n.body, n.orelse = n.orelse, n.body
+                    s2 = ast.unparse(ast.fix_missing_locations(tree)) + "\n"
                 elif e["transform"] == "reverse_keywords":
                     tree = ast.parse(s)
                     for n in ast.walk(tree):
